@@ -64,7 +64,8 @@ def deadline(seconds):
     outer_left = signal.getitimer(signal.ITIMER_REAL)[0]  # an enclosing deadline keeps running
     t0 = time.time()
     old = signal.signal(signal.SIGALRM, _h)
-    signal.setitimer(signal.ITIMER_REAL, seconds if not outer_left else min(seconds, outer_left))
+    # repeating: an alarm that lands inside a destructor / weakref callback is swallowed there, the next one is not
+    signal.setitimer(signal.ITIMER_REAL, seconds if not outer_left else min(seconds, outer_left), 0.25)
     try:
         yield
     finally:
